@@ -122,5 +122,6 @@ def finish(pid, tier, obs, floors, t0, extra=None, explanation="", assumptions=N
     if floor_errors:
         for e in floor_errors:
             print(f"ANALYSIS-ERROR property={pid} instance floor not met: {e}")
-        return 2
+        # a reported violation stands on its own; an unmet floor without any violation is analysis-broken
+        return 1 if unlisted else 2
     return 1 if unlisted else 0
